@@ -14,8 +14,9 @@ Not decided: background tasks already writing when the cancel lands; engine-inte
 from __future__ import annotations
 
 import ast
+import re
 
-from ..astx import reach_assuming, call_name, calls_named, dotted, enclosing_stmt, expand, kwarg, last
+from ..astx import atoms, reach_assuming, call_name, calls_named, dotted, enclosing_stmt, expand, kwarg, last
 from ..cfg import CFG, exprs_in_node
 from ..index import AnchorError, enclosing_function, parent, qualname_of, walk_shallow
 from ..selftest import Twin
@@ -186,19 +187,31 @@ def run(chk) -> None:
                 x = expand(e, at, depth=3)
                 return tgt is not None and isinstance(x, ast.Name) and x.id == tgt
 
-            tests = []
+            # tests of "the command produced a result": a test whose only atom is `<x> is None` (either polarity, either spelling),
+            # x (a copy of) the value returned by process_command; `none_edge` = the branch taken when there is no result
+            tests: list[tuple] = []
             for t in cfgt.nodes:
                 if t.kind != "test":
                     continue
                 tt = t.ast.test
-                if isinstance(tt, ast.Compare) and len(tt.ops) == 1 and isinstance(tt.ops[0], ast.IsNot) and isinstance(tt.comparators[0], ast.Constant) and tt.comparators[0].value is None and is_result_name(tt.left, t.ast):
-                    tests.append(t)
-            # from the command execution, the next iteration is reachable only through the F edge of `result is not None`
-            nxt = cfgt.reach([n], blocked_edges=[(t, "F") for t in tests], labels_excluded=("exc", "cancel"), include_starts=False)
+                core = tt.operand if isinstance(tt, ast.UnaryOp) and isinstance(tt.op, ast.Not) else tt
+                if isinstance(core, ast.Compare) and len(core.ops) == 1 and isinstance(core.ops[0], (ast.Is, ast.IsNot)) and isinstance(core.comparators[0], ast.Constant) and core.comparators[0].value is None \
+                        and is_result_name(core.left, t.ast):
+                    at = atoms(tt, True)
+                    if len(at) == 1:
+                        tests.append((t, "T" if at[0][1] else "F"))
+            # from the command execution, the next iteration is reachable only through the no-result edge of such a test
+            nxt = cfgt.reach([n], blocked_edges=[(t, lab) for t, lab in tests], labels_excluded=("exc", "cancel"), include_starts=False)
             ok = bool(tests) and not any(h in nxt for h in heads)
             chk.ob("C04.R3", "the runner stops executing commands at the first one that yields a result", ok, m=mr, node=n.ast, fn=pt, instance="process-tick:first-exit",
                    reason="the loop can continue after process_command returned a StopEvent")
-            rets = [t for t in tests for lab, s_ in cfgt.succ[t] if lab == "T" and isinstance(s_.ast, ast.Return) and s_.ast.value is not None and is_result_name(s_.ast.value, s_.ast)]
+            rets = []
+            for t, none_lab in tests:
+                for lab, s_ in cfgt.succ[t]:
+                    if lab in ("T", "F") and lab != none_lab:
+                        # on the result side, a `return <result>` is reached before the loop head
+                        side = cfgt.reach([s_], blocked=heads, labels_excluded=("exc", "cancel"))
+                        rets += [r_ for r_ in side if isinstance(r_.ast, ast.Return) and r_.ast.value is not None and is_result_name(r_.ast.value, r_.ast)]
             chk.ob("C04.R3", "that result is returned to run()", bool(rets), m=mr, node=n.ast, fn=pt, instance="process-tick:returns-result", reason="no `return result` on the non-None branch")
     _, pc = repo.func(f"{RUNNER}.process_command")
     cmd = param(pc, 1)
@@ -263,7 +276,20 @@ def run(chk) -> None:
     # ---------------------------------------------------------------- R6 StopEvent result cancels other workers before reduction
     _, rn = repo.func(f"{RUNNER}.run")
     cfgr = CFG(rn)
-    appends = [n for n in cfgr.nodes if n.ast is not None and any(isinstance(x, ast.Call) and (call_name(x) or "") == "self.tick_buffer.append" and x.args and ast.unparse(x.args[0]) == "tick_result" for x in exprs_in_node(n))]
+    # the worker result tick, by role: the local bound to `<task>.result()` on the paths where <task> was taken out of
+    # `self.worker_tasks` (the pull task's result is bound by the same call on the other branch)
+    result_names = set()
+    for a_ in ast.walk(rn):
+        if isinstance(a_, ast.Assign) and isinstance(a_.value, ast.Call) and isinstance(a_.value.func, ast.Attribute) and a_.value.func.attr == "result" and not a_.value.args:
+            recv = ast.unparse(a_.value.func.value)
+            taken = [x_ for x_ in cfgr.nodes if x_.ast is not None and any(isinstance(y_, ast.Call) and (call_name(y_) or "") in ("self.worker_tasks.discard", "self.worker_tasks.remove")
+                                                                           and y_.args and ast.unparse(y_.args[0]) == recv for y_ in exprs_in_node(x_))]
+            an = cfgr.nodes_of(a_)
+            if taken and an and all(x_ not in cfgr.reach([cfgr.entry], blocked=taken) for x_ in an):
+                result_names |= {t_.id for t_ in a_.targets if isinstance(t_, ast.Name)}
+    if not result_names:
+        raise AnchorError("C04.R6: no local bound to `<task>.result()` in _ControlLoopRunner.run")
+    appends = [n for n in cfgr.nodes if n.ast is not None and any(isinstance(x, ast.Call) and (call_name(x) or "") == "self.tick_buffer.append" and x.args and ast.unparse(x.args[0]) in result_names for x in exprs_in_node(n))]
     chk.floor("C04.R6", "sites buffering a worker result tick", len(appends), 1)
     for n in appends:
         # a test that recognises "this worker result carries a StopEvent" (directly, or through a boolean helper given the
@@ -276,10 +302,11 @@ def run(chk) -> None:
             if t.kind != "test" or not isinstance(t.ast, ast.If):
                 continue
             i = t.ast
-            direct = "StopEvent" in ast.unparse(i.test) and "tick_result" in ast.unparse(expand(i.test, i, depth=2)) + ast.unparse(_enclosing_iter(i))
+            _txt = ast.unparse(expand(i.test, i, depth=2)) + ast.unparse(_enclosing_iter(i))
+            direct = "StopEvent" in ast.unparse(i.test) and any(re.search(rf"\b{re.escape(r_)}\b", _txt) for r_ in result_names)
             via_helper = False
             for c_ in ast.walk(i.test):
-                if isinstance(c_, ast.Call) and any(isinstance(a_, ast.Name) and a_.id == "tick_result" for a_ in c_.args):
+                if isinstance(c_, ast.Call) and any(isinstance(a_, ast.Name) and a_.id in result_names for a_ in c_.args):
                     imp = implied_facts(mr, c_, True, _ecls(rn), 2)
                     via_helper = via_helper or any("StopEvent" in a_ and pol_ for a_, pol_ in imp)
             if not (direct or via_helper):
